@@ -510,6 +510,9 @@ type caseWitness struct {
 	Tamper    string   `json:"tamper,omitempty"`
 	Server    []string `json:"server_transcript,omitempty"`
 	QueueLog  []string `json:"queue_log,omitempty"`
+	// concurrent-signing rounds (conc_test.go): which other messages were inside
+	// RewriteBody of the same modify.dkim instance together with this one
+	Round any `json:"concurrent_round,omitempty"`
 }
 
 func clip(b []byte) string {
@@ -564,7 +567,31 @@ func dirEmpty(dir string) bool {
 	return err == nil && len(es) == 0
 }
 
-func (h *harness) runCase(c *rep.Case, i int) {
+// sink receives the verdicts of one judged message: a *rep.Case for the
+// one-message cases, a per-message wrapper for the concurrent-signing rounds
+// (conc_test.go), where several messages are judged inside one case.
+type sink interface {
+	Violation(sig, what string, witness any)
+	Inconclusive(why string)
+	Done(shape string, nontrivial bool)
+}
+
+// prepared: one generated message, parsed the way an endpoint parses it, ready
+// to be handed to the signer.
+type prepared struct {
+	i     int
+	p     *prng.R
+	sc    scenario
+	msg   *message
+	hdr   textproto.Header
+	body  buffer.Buffer // what the queue is handed (the signer may get a slower view of the same bytes)
+	meta  *module.MsgMetadata
+	shape string
+	feats []string
+	w     caseWitness
+}
+
+func (h *harness) runCase(c sink, i int) {
 	r := h.r
 	p := prng.New(r.Seed(), uint64(i), "c08")
 	sc := genScenario(p, i, r.Thorough())
@@ -606,6 +633,21 @@ func (h *harness) runCase(c *rep.Case, i int) {
 	if n := maxPhysicalLine(msg.Header); n > maxLine {
 		h.t.Fatalf("c08: harness bug: generated header line of %d octets", n)
 	}
+	pm := h.prepare(c, i, p, sc, msg, fmt.Sprintf("c08m%d", i))
+	if pm == nil {
+		return
+	}
+
+	// --- sign ---
+	signer, ks := h.signerFor(&pm.sc)
+	pm.sc.ks = ks
+	h.afterSign(c, pm, h.signOne(signer, pm, pm.body))
+}
+
+// prepare parses the generated header the way an endpoint does and sets up the
+// message meta-data and the witness. nil: the case was closed as inconclusive.
+func (h *harness) prepare(c sink, i int, p *prng.R, sc scenario, msg *message, msgID string) *prepared {
+	r := h.r
 	shape := sc.shape(msg)
 	var feats []string
 	for f, on := range msg.Features {
@@ -619,7 +661,6 @@ func (h *harness) runCase(c *rep.Case, i int) {
 	if len(w.Fields) > 80 {
 		w.Fields = append([]string{fmt.Sprintf("...[%d fields above]", len(msg.Fields)-80)}, msg.Fields[len(msg.Fields)-80:]...)
 	}
-	ctx := context.Background()
 
 	hdr, err := textproto.ReadHeader(bufio.NewReader(bytes.NewReader(append(append([]byte{}, msg.Header...), '\r', '\n'))))
 	if err != nil {
@@ -627,28 +668,46 @@ func (h *harness) runCase(c *rep.Case, i int) {
 		r.Count("generated_header_refused_by_parser", 1)
 		c.Inconclusive("generated header refused by textproto.ReadHeader: " + err.Error())
 		c.Done(shape, false)
-		return
+		return nil
 	}
-	body := buffer.MemoryBuffer{Slice: msg.Body}
-
-	// --- sign ---
-	meta := &module.MsgMetadata{ID: fmt.Sprintf("c08m%d", i), OriginalFrom: sc.Sender, DontTraceSender: true}
+	meta := &module.MsgMetadata{ID: msgID, OriginalFrom: sc.Sender, DontTraceSender: true}
 	meta.SMTPOpts.UTF8 = sc.EAI
-	signer, ks := h.signerFor(&sc)
-	sc.ks = ks
-	st, err := signer.ModStateForMsg(ctx, meta)
+	return &prepared{i: i, p: p, sc: sc, msg: msg, hdr: hdr, body: buffer.MemoryBuffer{Slice: msg.Body}, meta: meta, shape: shape, feats: feats, w: w}
+}
+
+// signOne runs one message through the modifier the way a pipeline does
+// (ModStateForMsg -> RewriteSender -> RewriteBody -> Close); body is what the
+// signer reads the message body from. Safe to call from several goroutines
+// for different messages (that is what conc_test.go does).
+func (h *harness) signOne(signer *moddkim.Modifier, pm *prepared, body buffer.Buffer) error {
+	ctx := context.Background()
+	st, err := signer.ModStateForMsg(ctx, pm.meta)
 	if err != nil {
-		h.t.Fatalf("c08: ModStateForMsg: %v", err)
+		return fmt.Errorf("c08 harness: ModStateForMsg: %w", err)
 	}
-	if _, err := st.RewriteSender(ctx, sc.Sender); err != nil {
-		h.t.Fatalf("c08: RewriteSender: %v", err)
+	defer st.Close()
+	if _, err := st.RewriteSender(ctx, pm.sc.Sender); err != nil {
+		return fmt.Errorf("c08 harness: RewriteSender: %w", err)
 	}
-	if err := st.RewriteBody(ctx, &hdr, body); err != nil {
-		c.Violation("sign/error", fmt.Sprintf("modify.dkim refused a conformant message: %v", err), w)
+	return st.RewriteBody(ctx, &pm.hdr, body)
+}
+
+// afterSign: spool, transmission, capture at the next hop, verification and
+// tamper drills for one signed message. Reports whether the message was judged
+// completely (payload captured, verified, tamper drills run).
+func (h *harness) afterSign(c sink, pm *prepared, signErr error) bool {
+	r := h.r
+	i, p, sc, msg, hdr, body, meta, shape, feats, w := pm.i, pm.p, pm.sc, pm.msg, pm.hdr, pm.body, pm.meta, pm.shape, pm.feats, pm.w
+	ctx := context.Background()
+	var err error
+	if signErr != nil {
+		if strings.HasPrefix(signErr.Error(), "c08 harness: ") {
+			h.t.Fatalf("c08: %v", signErr)
+		}
+		c.Violation("sign/error", fmt.Sprintf("modify.dkim refused a conformant message: %v", signErr), w)
 		c.Done(shape, true)
-		return
+		return false
 	}
-	st.Close()
 	sigField := hdr.Get("DKIM-Signature") // Get returns the top-most field, which is where AddRaw puts the new one
 	if sigField == "" || (sc.ForeignSig && strings.Contains(sigField, "d=gone.example")) {
 		if sc.Family == famSubdomains && sc.SubDepth > 0 && sc.SubSpelling != "as-configured" {
@@ -657,7 +716,7 @@ func (h *harness) runCase(c *rep.Case, i int) {
 			// sign_subdomains: not a signed message, nothing of C08 to judge.
 			r.Count("observed_subdomain_sender_spelled_differently_not_signed", 1)
 			c.Done(shape, false)
-			return
+			return false
 		}
 		sig := "sign/no-signature-added/domain=" + sc.Domain.Kind + fmt.Sprintf("/eai=%v", sc.EAI)
 		if sc.Family == famSubdomains && sc.SubDepth > 0 {
@@ -665,7 +724,7 @@ func (h *harness) runCase(c *rep.Case, i int) {
 		}
 		c.Violation(sig, "modify.dkim added no signature for sender "+sc.Sender, w)
 		c.Done(shape, true)
-		return
+		return false
 	}
 	w.Signature = sigField
 	r.Count("messages_signed", 1)
@@ -732,7 +791,7 @@ func (h *harness) runCase(c *rep.Case, i int) {
 		if try >= 200 {
 			c.Inconclusive("cannot listen on 127.0.0.1:0: " + err.Error())
 			c.Done(shape, false)
-			return
+			return false
 		}
 		r.Count("listen_retries", 1)
 		time.Sleep(100 * time.Millisecond)
@@ -852,21 +911,21 @@ func (h *harness) runCase(c *rep.Case, i int) {
 	d, err := q1.Start(ctx, meta, sc.Sender)
 	if err != nil {
 		spoolErr("start", err)
-		return
+		return false
 	}
 	if err := d.AddRcpt(ctx, sc.Rcpt, smtp.RcptOptions{}); err != nil {
 		d.Abort(ctx)
 		spoolErr("rcpt", err)
-		return
+		return false
 	}
 	if err := d.Body(ctx, hdr, body); err != nil {
 		d.Abort(ctx)
 		spoolErr("body", err)
-		return
+		return false
 	}
 	if err := d.Commit(ctx); err != nil {
 		spoolErr("commit", err)
-		return
+		return false
 	}
 	r.Count("messages_spooled", 1)
 
@@ -920,7 +979,7 @@ func (h *harness) runCase(c *rep.Case, i int) {
 		})
 		if !ok {
 			c.Done(shape, false)
-			return
+			return false
 		}
 		q2, err = queue.VerifNewQueue(queue.VerifOpts{Dir: dir, Target: tgt, MaxTries: 6, Log: qlogger})
 	}
@@ -933,7 +992,7 @@ func (h *harness) runCase(c *rep.Case, i int) {
 	}
 	if !waitFor("message not committed at the next hop", func() bool { return committed() != nil }) {
 		c.Done(shape, false)
-		return
+		return false
 	}
 	// the spool entry disappears once the delivering instance has finished
 	waitFor("spool not emptied after delivery", func() bool { return dirEmpty(dir) })
@@ -953,7 +1012,7 @@ func (h *harness) runCase(c *rep.Case, i int) {
 	if len(commits) == 0 {
 		c.Inconclusive("no committed transaction after the wait")
 		c.Done(shape, false)
-		return
+		return false
 	}
 	payload := commits[len(commits)-1].Data
 	r.Count("payloads_captured", 1)
@@ -1099,11 +1158,11 @@ func (h *harness) runCase(c *rep.Case, i int) {
 			r.Count("observed_nonconformant_8bit_header_fails", 1)
 		}
 		c.Done(shape, false)
-		return
+		return false
 	}
 	if !allPass {
 		c.Done(shape, true)
-		return
+		return false
 	}
 	r.Count("untampered_verified_by_both", 1)
 
@@ -1117,10 +1176,11 @@ func (h *harness) runCase(c *rep.Case, i int) {
 		r.Sample(map[string]any{"scenario": sc, "features": feats, "signature": sigField, "payload_bytes": len(payload)})
 	}
 	c.Done(shape, true)
+	return true
 }
 
 // budget: maximum number of tampered copies to verify (negative = all).
-func (h *harness) tamper(c *rep.Case, p *prng.R, sc *scenario, payload []byte, wantD string, w *caseWitness, budget int) {
+func (h *harness) tamper(c sink, p *prng.R, sc *scenario, payload []byte, wantD string, w *caseWitness, budget int) {
 	r := h.r
 	fields, body, ok := splitPayload(payload)
 	if !ok {
@@ -1288,6 +1348,9 @@ func TestVerif(t *testing.T) {
 	h := newHarness(t, r)
 	defer os.RemoveAll(h.keyRoot)
 	n := r.N(800, 10000)
+	if os.Getenv("C08_ONLYCONC") != "" { // debugging aid: only the concurrent-signing rounds
+		n = 0
+	}
 	only := -1 // C08_ONLY=<index>: debugging aid, runs one case of the tier
 	if v := os.Getenv("C08_ONLY"); v != "" {
 		fmt.Sscan(v, &only)
@@ -1297,5 +1360,18 @@ func TestVerif(t *testing.T) {
 			continue
 		}
 		r.Run(i, fmt.Sprintf("msg-%d", i), func(c *rep.Case) { h.runCase(c, i) })
+	}
+	// concurrent-signing rounds (conc_test.go): several messages inside one
+	// modify.dkim instance at the same time, each judged like a message above
+	nc := r.N(48, 600)
+	if os.Getenv("C08_NOCONC") != "" { // timing aid only, never for a verdict run
+		nc = 0
+	}
+	for rn := 0; rn < nc; rn++ {
+		idx := concBase + rn
+		if only >= 0 && idx != only {
+			continue
+		}
+		r.Run(idx, fmt.Sprintf("conc-%d", rn), func(c *rep.Case) { h.runConcRound(c, idx, rn) })
 	}
 }
